@@ -8,7 +8,7 @@ from typing import Dict, List, Optional, Set, Tuple
 
 from .core import AnalysisError, Ctx, IdiomNotFound, rule
 from .pipeline import CLI_REL, COMPILER_REL, VISITORS_REL, option_slice, pipeline
-from .pyast import ClassInfo, ast_contains, call_name, is_self_attr, names_loaded, pyfacts, unparse, walk_no_nested
+from .pyast import ClassInfo, ast_contains, call_name, is_self_attr, names_loaded, pyfacts, resolve_alias, unparse, walk_no_nested
 
 BASE_VISITOR = "BasicConstructVisitor"
 
@@ -142,7 +142,7 @@ def p1(ctx: Ctx):
             ctx.ob(f"{p.cls}<emit", False, f"pass `{p.cls}` runs after the program text was produced", file=COMPILER_REL, line=p.line, props=["C05"])
 
 
-@rule("P10", "EXCLUSION-SETS: the string allocator is told about every DIMmed name, the implicit-array pass about the DIMmed arrays", ["C10", "C11"], floor=2, default_props=["C10"])
+@rule("P10", "EXCLUSION-SETS: the string allocator is told about every DIMmed name, the implicit-array pass about the DIMmed arrays", ["C10", "C11", "C03", "C02"], floor=2, default_props=["C10"])
 def p10(ctx: Ctx):
     P = pipeline(ctx)
     py = P.py
@@ -230,6 +230,44 @@ def p10(ctx: Ctx):
         # the second declaration appears only under a non-default string size: the size option adds a line it does not document
         props=["C10", "C11"],
     )
+    # what counts as DIMmed comes from DIM statements only: every store into a visitor's dimmed-name set happens under
+    # `isinstance(<statement>, BasicDimStatement)` (or in the constructor, from the set another pass collected)
+    for ci_ in [c for m_ in py.modules.values() for c in m_.classes.values() if m_.rel.endswith("visitors.py")]:
+        for mname, mf in ci_.methods.items():
+            if mname == "__init__":
+                continue
+            parents_ = {id(c): p_ for p_ in ast.walk(mf) for c in ast.iter_child_nodes(p_)}
+            for n in ast.walk(mf):
+                tgt = None
+                if isinstance(n, ast.Call) and isinstance(n.func, ast.Attribute) and n.func.attr in ("add", "update", "append", "extend") and is_self_attr(n.func.value) and "dimmed" in n.func.value.attr:
+                    tgt = n.func.value.attr
+                elif isinstance(n, (ast.Assign, ast.AugAssign)):
+                    for t_ in (n.targets if isinstance(n, ast.Assign) else [n.target]):
+                        if is_self_attr(t_) and "dimmed" in t_.attr:
+                            tgt = t_.attr
+                if tgt is None:
+                    continue
+                g_, under_dim = parents_.get(id(n)), False
+                while g_ is not None:
+                    if isinstance(g_, ast.If) and "BasicDimStatement" in unparse(g_.test) and "isinstance" in unparse(g_.test) and any(x is n for b_ in g_.body for x in ast.walk(b_)):
+                        under_dim = True
+                    g_ = parents_.get(id(g_))
+                # ... or what is stored is computed from a DIM statement's own variable list (`<stmt>.dim_vars`, which only
+                # BasicDimStatement has) - the guard may then sit in a base class that dispatches to this method
+                val_ = n.args[0] if isinstance(n, ast.Call) and n.args else getattr(n, "value", None)
+                if not under_dim and val_ is not None:
+                    srcs_ = [val_] + [resolve_alias(mf, x_) for x_ in ast.walk(val_) if isinstance(x_, ast.Name)]
+                    if any(isinstance(a_, ast.Attribute) and a_.attr == "dim_vars" for s_ in srcs_ for a_ in ast.walk(s_)):
+                        under_dim = True
+                ctx.ob(
+                    f"{ci_.name}.{mname}:{tgt}:from-DIM-only",
+                    under_dim,
+                    "" if under_dim else f"`{ci_.name}.{mname}` puts names into `{tgt}` that no DIM statement declares (`{unparse(n)[:70]}`): they are skipped by the pre-initialiser / the declaring passes as if the source had DIMmed them - a variable read before its first assignment has no initial value, a string no size",
+                    file=VISITORS_REL,
+                    line=n.lineno,
+                    witness="" if under_dim else "10 IF I>0 THEN END / 20 FOR I=1 TO 3:NEXT / 30 GOTO 10",
+                    props=["C03", "C02", "C10"],
+                )
     dl, src2, attr2 = source_of("DeclareImplicitArraysVisitor", "dimmed_var_names")
     kind2 = collects(src2.cls) if src2 is not None else "nothing"
     ok2 = kind2 in ("all", "arrays")
@@ -419,7 +457,7 @@ def _dest(flags: List[str], kw: Dict[str, ast.AST]) -> str:
     return flags[0]
 
 
-@rule("P3", "CLI-MAP: each command-line flag feeds exactly its documented option, procname is the file stem, output uses CR", ["C11", "C15"], floor=10)
+@rule("P3", "CLI-MAP: each command-line flag feeds exactly its documented option, procname is the file stem, output uses CR", ["C11", "C15", "C10"], floor=10, default_props=["C11", "C15"])
 def p3(ctx: Ctx):
     py = pyfacts(ctx)
     m = py.mod(CLI_REL)
@@ -617,7 +655,8 @@ def p3(ctx: Ctx):
         if kwname == "config_file":
             continue
         ok = any(k.arg == kwname for k in inner.keywords)
-        ctx.ob(f"convert_file=>{kwname}", ok, "" if ok else f"convert_file does not forward `{kwname}` to convert()", file=COMPILER_REL, line=inner.lineno)
+        # (a string size that never arrives also means declarations without the requested size: C10)
+        ctx.ob(f"convert_file=>{kwname}", ok, "" if ok else f"convert_file does not forward `{kwname}` to convert()", file=COMPILER_REL, line=inner.lineno, props=["C11", "C15", "C10"] if "str_storage" in kwname else None)
     ok = any(k.arg == "procname" for k in inner.keywords)
     ctx.ob("convert_file=>procname", ok, "" if ok else "convert_file does not forward procname", file=COMPILER_REL, line=inner.lineno)
     # defaults of convert_file equal the defaults of convert (an option not given on either level means the same)
